@@ -13,7 +13,7 @@ WIDTHS = ['', '1', '6', '12'] if SIZE == "quick" else ['', '1', '3', '6', '7', '
 GROUPS = ['', ',', '_']
 PRECS = ['', '.0', '.2', '.10'] if SIZE == "quick" else ['', '.0', '.1', '.2', '.3', '.6', '.10', '.17']
 TYPES = ['', 'b', 'c', 'd', 'o', 'x', 'X', 'n', 'e', 'E', 'f', 'F', 'g', 'G', '%', 's']
-INTS = [0, 1, -1, 7, -42, 255, 1234567, -1234567, 10**20, -(10**20), 65, 0x1F600, 1000, 999999, 0x110000]
+INTS = [0, 1, -1, 7, -42, 255, 1234567, -1234567, 10**20, -(10**20), 65, 0x1F600, 1000, 999999, 0x110000, 0xD800, 0xDFFF]
 STRS = ['', 'a', 'abc', 'é', 'héllo wörld', '日本語']
 BOOLS = [True, False]
 FLOATS = [0.0, -0.0, 1.0, -1.5, 1234.5678, -1234567.891, 1e10, 1.5e-7, float('inf'), float('-inf'), float('nan'),
@@ -55,6 +55,10 @@ def judge(d):
                     try:
                         exp = format(v, spec)
                     except (ValueError, OverflowError, TypeError):
+                        exp = "\x00E"
+                    if any(0xD800 <= ord(ch) <= 0xDFFF for ch in exp):
+                        # format(0xD800, 'c') is a lone surrogate in Python; a Rust string cannot hold one: an error (not
+                        # a panic) is the required outcome
                         exp = "\x00E"
                     n += 1
                     if got != exp:
